@@ -646,6 +646,24 @@ def run(ctx, prog):
                    ("precondition: callers test isValid()/reserve() first (checked under R-FALLIBLE/R-NOMEM)" if asserted else
                     "node_ may be null after a failed (re)allocation and is written through"))
     ctx.floor(rule, "writes through node_->data", nb, 4)
+    # ------------------------------------------------------------ R-COVER (the failure flag follows the document)
+    # swap(ResourceManager) backs move construction and both assignments of JsonDocument: the sticky
+    # overflowed_ flag (and everything else the manager owns) must be exchanged on both operands,
+    # else a truncated copy reports overflowed() == false.
+    from rules import c06
+    sub = type(ctx)(ctx.prop, ctx.tier)
+    sub.config = ctx.config
+    c06.run(sub, prog)
+    ncov = 0
+    for o in sub.obs:
+        if o.rule == "R-COVER" and "swap(ResourceManager)" in o.key:
+            ctx.obs.append(o)
+            ncov += 1
+    for b in sub.broken:
+        if "R-COVER" in b:
+            ctx.broken.append(b)
+    ctx.floor("R-COVER", "fields of ResourceManager exchanged by swap", ncov, 4)
+    ctx.doc("R-COVER", "swap(ResourceManager) exchanges every field, the sticky failure flag included")
     for r_ in ("R-FALLIBLE", "R-REALLOC", "R-STICKY", "R-LINK", "R-BUILDER", "R-NOMEM"):
         ctx.doc(r_, r_)
 
